@@ -80,8 +80,22 @@ func (s *Session) localLookupFiltered(fr *Frame, st *State, at *ssa.BasicBlock, 
 		}
 		var best *localDef
 		bestKey := [2]int{-1, -1}
+		// a variable that lives in a memory cell (address taken, captured by a closure) always denotes the current
+		// content of the cell: value definitions recorded for the same name (its initialiser) are stale
+		hasCell := false
 		for i := range defs {
 			d := &defs[i]
+			if d.isAddr && (d.blk.Dominates(at) || d.blk == at) {
+				if _, known := fr.vals[d.val]; known {
+					hasCell = true
+				}
+			}
+		}
+		for i := range defs {
+			d := &defs[i]
+			if hasCell && !d.isAddr {
+				continue
+			}
 			ok := false
 			if d.blk == at {
 				_, isPhi := d.val.(*ssa.Phi)
